@@ -7,8 +7,14 @@ Case kinds
          values / exception classes of successive `receive_message()` calls
   rt   : messages framed by the real `frame()`, concatenated, chunked, fed back (round trip);
          additionally the frame bytes are compared with the layout the property states
-  sess : the same chunk list fed to a `MessageSession` on a fake transport; observed: messages
-         reaching `handle_message`, `session.errors`, transport closed?
+  sess : the same chunk list fed to a `MessageSession` on a fake transport that reports the loss
+         at once / 2.5 ms after close() / not before abort(); observed: messages reaching
+         `handle_message`, `session.errors`, transport closed?
+
+Only the public surface of the library is touched (constructor keywords, `max_payload_size` set
+on the instance, `frame`, `received_bytes`, `receive_message`, the exception classes,
+`MessageSession.handle_message` / `.errors`); the probes live in harness/c07_fake.py and are
+shared with tools/facts/c07.py.
 """
 import asyncio
 import hashlib
@@ -40,20 +46,26 @@ def mk_frame(magic, cmd, payload):
     return mk_header(magic, cmd, len(payload), dsha4(payload)) + payload
 
 
+BOTH = frozenset(FATAL)
+
+
 def ref_walk(magic, mp, mb, stream):
     """The outcomes the property fixes: exact up to and including the first magic/size error
     (the text promises nothing about resynchronisation after those).  Returns
-    (expected outcomes, exact?) - exact is False when the list stops at a magic/size error."""
+    (expected outcomes, exact?) - exact is False when the list stops at a magic/size error.
+    An expected error is ('E', <set of acceptable classes>): a header that has the wrong magic
+    AND an over-limit length may raise either error - the text fixes no order of the tests."""
     out, pos = [], 0
     while len(stream) - pos >= 24:
         h = stream[pos:pos + 24]
-        if h[:4] != magic:
-            out.append(('E', 'BadMagicError'))
-            return out, False
         n = int.from_bytes(h[16:20], 'little')
         cmd = h[4:16].rstrip(b'\0')
-        if n > mp and not (cmd == b'block' and n <= mb):
-            out.append(('E', 'OversizedPayloadError'))
+        bad_magic = h[:4] != magic
+        over = n > mp and not (cmd == b'block' and n <= mb)
+        if bad_magic or over:
+            ok = BOTH if (bad_magic and over) else \
+                frozenset(['BadMagicError'] if bad_magic else ['OversizedPayloadError'])
+            out.append(('E', ok))
             return out, False
         if len(stream) - pos - 24 < n:
             break
@@ -61,9 +73,36 @@ def ref_walk(magic, mp, mb, stream):
         if dsha4(payload) == h[20:24]:
             out.append(('M', cmd, payload))
         else:
-            out.append(('E', 'BadChecksumError'))
+            out.append(('E', frozenset(['BadChecksumError'])))
         pos += 24 + n
     return out, True
+
+
+def same(e, g):
+    """does observed outcome g satisfy expectation e"""
+    if e[0] == 'E':
+        return g[0] == 'E' and g[1] in e[1]
+    return tuple(e) == tuple(g)
+
+
+def first_diff(exp, got, exact):
+    """index of the first outcome where the trace departs from what the text fixes, or None"""
+    if not exact:
+        got = got[:len(exp)]
+    for k, (e, g) in enumerate(zip(exp, got)):
+        if not same(e, g):
+            return k
+    if len(got) != len(exp):
+        return min(len(got), len(exp))
+    return None
+
+
+def fmt_exp(e):
+    if e is None:
+        return 'nothing'
+    if e[0] == 'E':
+        return ' or '.join(TOK[c] for c in sorted(e[1]))
+    return fmt_out([e])
 
 
 def delivered_is_backed(magic, stream, cmd, payload):
@@ -112,11 +151,10 @@ def oracle_recv(case, out):
                         'length and checksum')
     if sent is None:
         exp, exact = ref_walk(magic, mp, mb, stream)
-        got = out if exact else out[:len(exp)]
-        if got != exp:
-            i = next((k for k, (a, b) in enumerate(zip(got, exp)) if a != b), min(len(got), len(exp)))
+        i = first_diff(exp, out, exact)
+        if i is not None:
             e = exp[i] if i < len(exp) else None
-            g = got[i] if i < len(got) else None
+            g = out[i] if i < len(out) else None
             if e and e[0] == 'M' and (g is None or g[0] == 'E'):
                 key = 'c07:valid-not-delivered'
             elif g and g[0] == 'M' and e and e[0] == 'E':
@@ -125,13 +163,18 @@ def oracle_recv(case, out):
                 key = 'c07:wrong-error-class'
             else:
                 key = 'c07:out-of-sync'
-            return (key, f'outcome #{i}: property says {fmt_out([e]) if e else "nothing"}, '
+            return (key, f'outcome #{i}: property says {fmt_exp(e)}, '
                          f'implementation gave {fmt_out([g]) if g else "nothing"}')
     return None
 
 
 def oracle_sess(case, obs):
-    """Session part of the property, judged on the framer outcomes the session actually saw."""
+    """Session part of the property - "a message session counts each such error and, for magic
+    and size errors, closes the connection" - judged on the framer outcomes the session actually
+    saw; plus "never delivered unless the checksum matches" at the `handle_message` end.  What
+    the text does not say (the order in which `handle_message` is called, that every received
+    message is handled, that the connection is closed ONLY for magic/size errors) is compared
+    with the model, not judged here."""
     ev = obs['events']
     for e in ev:
         if e[0] == 'X':
@@ -142,16 +185,19 @@ def oracle_sess(case, obs):
     if obs['errors'] != nerr:
         return ('c07:session-error-count',
                 f'{nerr} framing errors were raised to the session, session.errors = {obs["errors"]}')
-    if obs['closed'] != fatal:
+    if fatal and not obs['closed']:
         return ('c07:session-close',
-                f'magic/size error seen: {fatal}; connection closed: {obs["closed"]}')
-    if obs['delivered'] != msgs:
-        return ('c07:session-delivery',
-                f'{len(msgs)} messages were received, {len(obs["delivered"])} reached '
-                'handle_message (or in another order / altered)')
+                'a magic/size error was raised to the session and the connection was not closed')
+    pool = list(msgs)
+    for m in obs['delivered']:
+        if m in pool:
+            pool.remove(m)
+        else:
+            return ('c07:session-delivery',
+                    'handle_message got a message the framer did not deliver (or got it twice)')
     # and the framer inside the session obeys the framing part
-    exp, exact = ref_walk(case['magic'], case['mp'], case['mb'], b''.join(case['chunks']))
-    if (ev if exact else ev[:len(exp)]) != exp:
+    exp, exact = ref_walk(case['magic'], case['mp'], case['mb'], b''.join(obs['fed']))
+    if first_diff(exp, ev, exact) is not None:
         return ('c07:session-framing', 'the session\'s framer outcomes differ from the property')
     return None
 
@@ -168,9 +214,29 @@ def fmt_out(out):
                     (TOK[o[1]] if o[0] == 'E' else f'X:{o[1]}') for o in out)
 
 
-def model_line(case):
-    k = 'sess' if case['k'] == 'sess' else 'recv'
-    return f'{k} {hx(case["magic"])} {case["mp"]} {case["mb"]} ' + ' '.join(hx(c) for c in case['chunks'])
+# g of the model for the three loss timings; the first two are *measured* by tools/facts/c07.py
+# on this tree (how many further magic/size errors the loop counts before the loss reaches it)
+G_OF_LOSE = {0: 0, 0.0025: 2, None: 1000000}
+_size_first = 0
+
+
+def _read_facts(facts):
+    global _size_first
+    facts = facts or {}
+    _size_first = 1 if facts.get('size_first') else 0
+    G_OF_LOSE[0] = facts.get('g_soon', 0)
+    G_OF_LOSE[0.0025] = facts.get('g_late', 2)
+    G_OF_LOSE[None] = facts.get('g_never', 1000000)
+
+
+def model_line(case, fed=None):
+    """`fed`: for a session case the chunks the transport really delivered (it delivers nothing
+    after close())"""
+    head = f'{hx(case["magic"])} {case["mp"]} {case["mb"]} {_size_first}'
+    if case['k'] == 'sess':
+        chunks = case['chunks'] if fed is None else fed
+        return f'sess {head} {G_OF_LOSE[case.get("lose", 0)]} ' + ' '.join(hx(c) for c in chunks)
+    return f'recv {head} ' + ' '.join(hx(c) for c in case['chunks'])
 
 
 def fmt_sess(obs):
@@ -188,6 +254,8 @@ def case_json(case):
         j['kind'] = case['kind']
     if case.get('default_class'):
         j['default_class'] = True
+    if case['k'] == 'sess':
+        j['lose'] = case.get('lose', 0)
     return j
 
 
@@ -201,12 +269,17 @@ def case_from_json(j):
         c['kind'] = j['kind']
     if j.get('default_class'):
         c['default_class'] = True
+    if j['k'] == 'sess':
+        c['lose'] = j.get('lose', 0)
     return c
 
 
 # ---------------------------------------------------------------- implementation side
 _mods = None
-_classes = {}
+
+
+class ProbeFailed(Exception):
+    """the harness cannot set the payload limit on this tree: machinery, not a verdict"""
 
 
 def _init(repo):
@@ -216,134 +289,51 @@ def _init(repo):
     session = fresh_import(repo, 'aiorpcx.session')
     rawsocket = fresh_import(repo, 'aiorpcx.rawsocket')
     _mods = (framing, session, rawsocket)
-    _classes.clear()
 
 
-def _framer_class(mp):
-    framing = _mods[0]
-    cls = _classes.get(mp)
-    if cls is None:
-        cls = _classes[mp] = type('SmallFramer', (framing.BitcoinFramer,), {'max_payload_size': mp})
-    return cls
-
-
-def _classify(framing, e):
-    for name in ('BadMagicError', 'OversizedPayloadError', 'BadChecksumError'):
-        if isinstance(e, getattr(framing, name)):
-            return ('E', name)
-    return ('X', type(e).__name__)
-
-
-async def _settle(n=3):
-    for _ in range(n):
-        await asyncio.sleep(0)
-
-
-def _new_framer(case):
-    framing = _mods[0]
-    if case.get('default_class'):
-        return framing.BitcoinFramer()
-    return _framer_class(case['mp'])(magic=case['magic'], max_block_size=case['mb'])
+def _new_framer(case, base=None):
+    return c07_fake.new_framer(_mods[0], case['magic'], case['mp'], case['mb'],
+                               default_class=case.get('default_class'), base=base)
 
 
 async def _impl_recv(case):
-    """mode 0: everything queued before the reader starts; 1: reader drains after each chunk;
-    2: reader started first, chunks fed in pairs."""
-    framing = _mods[0]
-    fr = _new_framer(case)
-    out = []
-    mode = case.get('mode', 1)
-
-    bound = sum(len(c) for c in case['chunks']) // 24 + 2
-
-    async def reader():
-        while True:
-            if len(out) > bound:
-                # more outcomes than headers fit in the stream: stop instead of spinning
-                out.append(('X', 'Runaway'))
-                return
-            try:
-                c, p = await fr.receive_message()
-                out.append(('M', bytes(c), bytes(p)))
-            except asyncio.CancelledError:
-                raise
-            except Exception as e:
-                kind = _classify(framing, e)
-                out.append(kind)
-                if kind[0] == 'X':
-                    return
-
-    task = None
-    if mode != 0:
-        task = asyncio.ensure_future(reader())
-        await _settle()
-    for i, c in enumerate(case['chunks']):
-        fr.received_bytes(bytes(c))
-        if mode == 1 or (mode == 2 and i % 2 == 1):
-            await _settle()
-    if task is None:
-        task = asyncio.ensure_future(reader())
-    stable, last = 0, -1
-    for _ in range(200):
-        await _settle()
-        if len(out) == last:
-            stable += 1
-            if stable >= 2:
-                break
-        else:
-            stable, last = 0, len(out)
-    task.cancel()
-    try:
-        await task
-    except BaseException:
-        pass
-    return out
+    return await c07_fake.recv_outcomes(_mods[0], _new_framer(case), case['chunks'],
+                                        mode=case.get('mode', 1))
 
 
 async def _impl_sess(case):
     framing, session, rawsocket = _mods
-    events, delivered = [], []
+    events = []
     lost = getattr(rawsocket, 'ConnectionLostError', ())   # how the transport ends the reader
-    base = framing.BitcoinFramer if case.get('default_class') else _framer_class(case['mp'])
 
-    class RecordingFramer(base):
+    class RecordingFramer(framing.BitcoinFramer):
         async def receive_message(self):
             try:
                 m = await super().receive_message()
             except asyncio.CancelledError:
                 raise
             except Exception as e:
-                kind = _classify(framing, e)
+                kind = c07_fake.classify(framing, e)
                 if kind[0] == 'E' or not isinstance(e, lost):
                     events.append(kind)
                 raise
             events.append(('M', bytes(m[0]), bytes(m[1])))
             return m
 
-    class Sess(session.MessageSession):
-        async def handle_message(self, message):
-            delivered.append((bytes(message[0]), bytes(message[1])))
-
-    framer = RecordingFramer() if case.get('default_class') else \
-        RecordingFramer(magic=case['magic'], max_block_size=case['mb'])
-    kind = session.SessionKind.CLIENT if case.get('kind') == 'client' else session.SessionKind.SERVER
-    proto, fake, sess = c07_fake.connect(rawsocket, Sess, framer, kind)
-    mode = case.get('mode', 1)
-    for i, c in enumerate(case['chunks']):
-        if fake.closing:
-            break                      # a closed transport delivers no more data
-        proto.data_received(bytes(c))
-        if mode == 1 or (mode == 2 and i % 2 == 1):
-            await asyncio.sleep(0.01)
-    await asyncio.sleep(1.0)
-    obs = {'events': list(events), 'delivered': list(delivered), 'errors': sess.errors,
-           'closed': bool(fake.closing), 'log': [x[0] for x in fake.log]}
-    try:
-        fake.abort()
-        await asyncio.sleep(0.01)
-    except Exception:
-        pass
+    obs = await c07_fake.sess_observe(
+        _mods, _new_framer(case, base=RecordingFramer), case['chunks'],
+        kind=case.get('kind', 'server'), lose=case.get('lose', 0), mode=case.get('mode', 1))
+    obs['events'] = list(events)
     return obs
+
+
+def check_limit_probe(repo):
+    """the small limits of the cases are set on the framer *instance*; make sure that moves the
+    limit on this tree (otherwise every small-limit case would silently run with the default)"""
+    _init(repo)
+    if not vloop.run(c07_fake.limit_takes_effect(_mods[0])):
+        raise ProbeFailed('setting max_payload_size on a BitcoinFramer instance does not change '
+                          'the limit it enforces; the harness cannot build its cases')
 
 
 def _run_batch(cases):
@@ -392,8 +382,10 @@ def run_impl(ctx, cases):
 def evaluate(ctx, cases, res):
     if not cases:
         return []
+    _read_facts(ctx.facts)
     outs = run_impl(ctx, cases)
-    model = ctx.model([model_line(c) for c in cases])
+    model = ctx.model([model_line(c, o.get('fed') if isinstance(o, dict) else None)
+                       for c, o in zip(cases, outs)])
     for i, (case, out) in enumerate(zip(cases, outs)):
         if case['k'] == 'sess':
             if 'hang' in out:
@@ -402,11 +394,15 @@ def evaluate(ctx, cases, res):
             got = fmt_sess(out)
             verdict = oracle_sess(case, out)
             res.count('sess_cases')
+            res.count('sess_lose_' + {0: 'soon', 0.0025: '2.5ms', None: 'never'}[case.get('lose', 0)])
+            res.count('sess_read_on_after_fatal',
+                      any(e[0] == 'E' and e[1] in FATAL for e in out['events'][:-1]))
             res.count('sess_closed', out['closed'])
             res.count('sess_errors_counted', out['errors'])
             res.count('sess_messages_handled', len(out['delivered']))
             if out['closed'] and out['delivered']:
-                res.nontrivial(('s', case['magic'], case['mp'], case['mb'], tuple(case['chunks'])))
+                res.nontrivial(('s', case['magic'], case['mp'], case['mb'], tuple(case['chunks']),
+                                case.get('lose', 0)))
         else:
             got = fmt_out(out)
             verdict = oracle_recv(case, out)
@@ -515,9 +511,13 @@ def as_sess(case, rng):
     c['k'] = 'sess'
     c.pop('sent', None)
     nerr = sum(1 for o in ref_walk(c['magic'], c['mp'], c['mb'], b''.join(c['chunks']))[0] if o[0] == 'E')
+    # when does the fake transport report the loss after close(): at once / 2.5 ms later (two more
+    # magic/size errors are processed) / not before abort()
+    c['lose'] = rng.choice([0, 0, 0.0025, None])
     # a SERVER session throttles / disconnects on accumulated *cost* (C14), which is another
-    # property: keep the error cost of server cases below the soft limit
-    c['kind'] = 'client' if nerr > 6 or rng.random() < 0.5 else 'server'
+    # property: keep the error cost of server cases below the soft limit (a session that reads
+    # on after a magic/size error can count many more errors)
+    c['kind'] = 'client' if nerr > 6 or c['lose'] != 0 or rng.random() < 0.5 else 'server'
     return c
 
 
@@ -751,7 +751,9 @@ def frame_inputs(rng, n):
 
 
 def corpus_cases(verif):
-    """corpus/C07.txt: `recv|sess|rt <magic> <mp> <mb> <chunk or cmd:payload> ...`"""
+    """corpus/C07.txt: `recv|sess|sess-late|sess-never|rt <magic> <mp> <mb> <chunk or
+    cmd:payload> ...` (sess: loss reported at once, -late: 2.5 ms after close(), -never: not
+    before abort())"""
     path = os.path.join(verif, 'corpus', 'C07.txt')
     out = []
     if not os.path.exists(path):
@@ -767,9 +769,11 @@ def corpus_cases(verif):
             out.append(('rt', magic, mp, mb, sent))
         else:
             c = recv_case(magic, mp, mb, [un(x) for x in t[4:]], 'corpus')
-            c['k'] = t[0]
-            if t[0] == 'sess':
-                c['kind'] = 'server'
+            c['k'] = 'sess' if t[0].startswith('sess') else t[0]
+            if c['k'] == 'sess':
+                c['lose'] = {'sess': 0, 'sess-late': 0.0025, 'sess-never': None}[t[0]]
+                c['kind'] = 'server' if c['lose'] == 0 else 'client'
+                c['mode'] = 0
             out.append(c)
     return out
 
@@ -782,7 +786,8 @@ RULE = ('case = (kind, magic, max_payload_size, max_block_size, chunk list, feed
         'seeded random streams of valid / bad-checksum / bad-magic / oversize / garbage items '
         'with random truncation, flips and chunkings (empty chunks included), round trips '
         'through the real frame(); the same streams through a MessageSession on a fake '
-        'transport; non-trivial = at least 2 chunks and at least one outcome (recv) or closed '
+        'transport that reports the loss at once / 2.5 ms after close() / not before abort(); '
+        'non-trivial = at least 2 chunks and at least one outcome (recv) or closed '
         'after at least one handled message (sess); distinct = distinct case tuples')
 
 
@@ -790,7 +795,7 @@ def run(ctx):
     res = Results()
     rng = ctx.rng
     deep = ctx.deep
-    _init(ctx.repo)
+    check_limit_probe(ctx.repo)
     framing = _mods[0]
     # (a) corpus of past failures first (F17 witness is the first line)
     cc = corpus_cases(ctx.verif)
@@ -852,6 +857,7 @@ def replay(ctx, case):
     if 'case' in case and isinstance(case['case'], dict):
         case = case['case']
     res = Results()
+    check_limit_probe(ctx.repo)
     if case.get('k') == 'frame':
         check_frames(ctx, [(bytes.fromhex(case['magic']), bytes.fromhex(case['cmd']),
                             bytes.fromhex(case['payload']))], res)
